@@ -47,6 +47,8 @@ def run(C, R):
         E = C.engine(cfg)
         CG = C.cg(cfg)
         R.configs.append(cfg)
+        from common import futures_start_initial as _fsi
+        R.floor('C10.R0 future-construction-paths[%s]' % cfg, _fsi(C, R, cfg, ['channel::mpmc::ChannelState'], 'C10.R0'), 2)
         from common import wrapper_discipline
         R.floor('C10.W wrapper-paths[%s]' % cfg, wrapper_discipline(C, R, cfg, ['channel::mpmc::ChannelState'], 'C10.W'), 2)
         n1 = n2 = n3 = 0
